@@ -96,6 +96,11 @@ MUTANTS = {
         ('generate_seals_with_other_expiry', r'private_connect_token\.encode\(&mut private_data, protocol_id, expire_timestamp, &xnonce, private_key\)\?;', 'private_connect_token.encode(&mut private_data, protocol_id, 0, &xnonce, private_key)?;'),
         ('read_u32_reads_two_bytes', r'(pub fn read_u32[\s\S]*?)let mut buffer = \[0u8; 4\];\s+src\.read_exact\(&mut buffer\)\?;', r'\1let mut buffer = [0u8; 4]; src.read_exact(&mut buffer[..2])?;'),
     ],
+    'U10': [
+        ('broadcast_skipped_when_events_pending', r'(pub fn broadcast_message<[^{]*\{[^{]*\{\s*)let channel_id = channel_id\.into\(\);', r'\1if self.events.len() > 3 { return; } let channel_id = channel_id.into();'),
+        ('broadcast_except_excludes_nobody', r'broadcast_except_summary\(&mut self\.connections, except_id, channel_id, message\);', 'broadcast_summary(&mut self.connections, channel_id, message);'),
+        ('send_to_other_client', r'(pub fn send_message<[\s\S]*?)self\.connections\.get_mut\(&client_id\)', r'\1self.connections.get_mut(&(client_id ^ 1))'),
+    ],
     'U18': [
         ('horizon_shortened', r'let DISCARD_AFTER: Duration = Duration::from_secs\(3\);', 'let DISCARD_AFTER: Duration = Duration::from_secs(2);'),
         ('comparison_flipped', r'if self\.current_time - sent_packet\.sent_at >= DISCARD_AFTER \{', 'if self.current_time - sent_packet.sent_at < DISCARD_AFTER {'),
